@@ -1157,6 +1157,14 @@ pub fn shdr_enc(t: &mut Tracer, sid: Option<u64>, script: &[usize]) {
             put(&mut r, "used", json!(out.len() - s.len()));
             put(&mut m, "rt", Value::Object(r));
         }
+        // ... and through the asynchronous reader: same value, same byte count
+        let mut rd = ScriptedReader::new(&out, &[], Eof::Fin);
+        if let Some(Ok(back)) = lib(|| drive(StreamHeader::read_async(&mut rd), MAX_POLLS)) {
+            let mut r = Map::new();
+            shdr_fields(&mut r, &back);
+            put(&mut r, "used", json!(rd.pos));
+            put(&mut m, "rta", Value::Object(r));
+        }
         m
     });
     emit(t, "shdr_enc", "vec", meas);
